@@ -2,7 +2,7 @@
 """Run every registered check against every seeded change (scratch worktrees under /tmp, removed afterwards) and
 record which checks fire.  Writes /verif/seeded/MATRIX.md and updates detected_by in each meta.json.
 With --benign the same is done for the behaviour-preserving refactors in /verif/benign (there an X is a FALSE ALARM).
-usage: tools/seed_matrix.py [--benign] [--jobs 4] [ids...]"""
+usage: tools/seed_matrix.py [--benign] [--jobs 4] [--checks C01,C02] [ids...]"""
 import json
 import os
 import re
@@ -21,12 +21,13 @@ def sh(cmd, cwd=None, env=None):
 
 
 KIND = "seeded"
+ONLY = None  # restrict to these checks (the other columns keep their last result)
 
 
 def run_seed(sid):
     src = os.path.join(VERIF, KIND, sid)
     man = json.load(open(os.path.join(VERIF, "MANIFEST.json")))
-    checks = [c["property_id"] for c in man["checks"]]
+    checks = [c["property_id"] for c in man["checks"] if ONLY is None or c["property_id"] in ONLY]
     tree = tempfile.mkdtemp(prefix="mx.", dir="/tmp")
     os.rmdir(tree)
     rc, o = sh(["git", "-C", "/repo", "worktree", "add", "--detach", tree, "HEAD", "-q"])
@@ -50,12 +51,16 @@ def run_seed(sid):
 
 
 def main():
-    global KIND
+    global KIND, ONLY
     jobs = 4
     args = sys.argv[1:]
     if "--benign" in args:
         args.remove("--benign")
         KIND = "benign"
+    if "--checks" in args:
+        i = args.index("--checks")
+        ONLY = set(args[i + 1].split(","))
+        del args[i:i + 2]
     if "--jobs" in args:
         i = args.index("--jobs")
         jobs = int(args[i + 1])
@@ -72,6 +77,13 @@ def main():
             print(sid, "detected by", det, "analysis-error in", err, flush=True)
             mp = os.path.join(VERIF, KIND, sid, "meta.json")
             meta = json.load(open(mp))
+            if ONLY is not None and "__patch__" not in res:
+                merged = dict(meta.get("checks_run", {}))
+                merged.update(res)
+                res = merged
+                results[sid] = res
+                det = [c for c, v in res.items() if v["exit"] == 1]
+                err = [c for c, v in res.items() if v["exit"] not in (0, 1)]
             meta["checks_run"] = res
             if KIND == "seeded":
                 meta["detected_by"] = det
